@@ -21,9 +21,9 @@ type Span struct {
 }
 
 type RenderOpts struct {
-	FlipEndian bool                                 // render with the other byte order (C03 non-triviality)
+	FlipEndian bool                                  // render with the other byte order (C03 non-triviality)
 	FieldHook  func(ts *TypeSchema, i int, f *Field) // perturb a copy of the field record (C02 non-triviality)
-	SwapAt     func(ts *TypeSchema) int             // swap fields i and i+1 of this type (-1: none)
+	SwapAt     func(ts *TypeSchema) int              // swap fields i and i+1 of this type (-1: none)
 	Spans      bool
 }
 
